@@ -121,9 +121,19 @@ def h_ops(I, plan, lo, hi):
     """A sequence of operations with symbolic arguments, compared step by step."""
     j, ref, keys, sessions = setup(I, 2)
     for k, op in enumerate(plan):
-        si = I.choice(f"sess{k}", 2)
+        si = I.choice(f"sess{k}", len(sessions))
         d = DIRS[I.choice(f"dir{k}", 2)]
-        if op == "persist":
+        if op == "newsession":
+            # a further session is created in the middle of the history
+            ni = len(sessions)
+            t, s = SESS[ni]
+            sess = j.create_or_load(t, s)
+            I.check((sess.next_num_in, sess.next_num_out) == ref.load(ni), "fresh session does not start at 1/1")
+            I.check(sess.key not in keys.values(), "new session shares a key with an existing one")
+            sessions[ni] = sess
+            keys[ni] = sess.key
+            I.goal("new-session")
+        elif op == "persist":
             do_persist(I, j, ref, sessions, k, si, d, lo, hi)
         elif op == "set":
             nout = I.int(f"new_out{k}", 1, hi + 1)
@@ -177,13 +187,14 @@ def cells(tier):
             out.append(Cell(f"store+set/{name}/{mname}", (lambda I, l=lay, mi=mi: h_set(I, l, lo, hi, (mi,))),
                             dict(rows=[(si, d.name) for si, d in lay], numbers=sb, set=f"symbolic session; new values symbolic ({mname})"),
                             goals=["stored", "set"]))
-    plans = [("persist", "persist", "set"), ("persist", "set", "persist"), ("persist", "load", "all")]
+    plans = [("persist", "persist", "set"), ("persist", "set", "persist"), ("persist", "load", "all"),
+             ("persist", "newsession", "persist"), ("newsession", "persist", "persist")]
     if not quick:
-        plans += [("persist", "persist", "persist", "set"), ("set", "persist", "set"), ("persist", "set", "load", "all")]
+        plans += [("persist", "newsession", "persist", "persist"), ("persist", "persist", "persist", "set"), ("set", "persist", "set"), ("persist", "set", "load", "all")]
     for pl in plans:
         out.append(Cell("ops/" + "-".join(pl), (lambda I, pl=pl: h_ops(I, pl, lo, hi)),
                         dict(plan=list(pl), session_and_direction="symbolic per step", numbers=sb),
-                        goals=["stored"], budget_s=2400))
+                        goals=["stored"] + (["new-session", "duplicate"] if "newsession" in pl else []), budget_s=2400))
     out.append(Cell("digits", h_digits, dict(number="symbolic in [1,10^5]"), goals=["stored"]))
     return out
 
